@@ -262,5 +262,336 @@ theorem no_panic_unrestricted_false :
   intro h
   exact absurd (h dropVsCompactionSchedule (by decide)) (by decide)
 
+/-! ### whole-run serializability of the restricted fragment
+
+Statement set: INSERT, SELECT, CREATE TABLE (any number of sessions, tables, statements; reads,
+pins, vacuum passes and id allocation interleaved at will).  The serial order is the **manifest
+order**: in every reachable state every table holds exactly what executing the published
+changesets one after the other, in the order the manifest lists them, produces; and a SELECT
+returns what that sequential execution had produced when the SELECT pinned.  (Per-session order:
+a session issues its next statement only after `cmd.done` of the previous one, and a statement's
+publishing step lies between its `cmd.begin` and `cmd.done`, so the manifest order extends every
+session's order.) -/
+
+/-- sequential meaning of one published changeset on table contents -/
+def specAfter (recs : List Op) (spec : Nat → List Int) : Nat → List Int :=
+  match recs with
+  | [.add (t, _) vs] => fun t' => if t' = t then vs ++ spec t' else spec t'
+  | _ => spec
+
+/-- sequential execution of the manifest -/
+def specOfLog (log : List (List Op)) : Nat → List Int :=
+  log.foldl (fun sp recs => specAfter recs sp) (fun _ => [])
+
+theorem specOfLog_snoc (log : List (List Op)) (recs : List Op) :
+    specOfLog (log ++ [recs]) = specAfter recs (specOfLog log) := by
+  simp [specOfLog, List.foldl_append]
+
+/-- changesets of the fragment -/
+def shapeOk : List Op → Bool
+  | [.add _ _] => true
+  | [.create _] => true
+  | _ => false
+
+/-- kernel operations of the fragment: everything except phase A of other changesets and the
+phase-A panic -/
+inductive RStep : K → K → Prop where
+  | refl (k : K) : RStep k k
+  | pin (k : K) (th : Tid) : RStep k (kPin k th)
+  | unpin (k : K) (th : Tid) (e : Nat) (h : (th, e) ∈ k.pins) : RStep k (kUnpin k th e)
+  | reserve (k : K) (th : Tid) (t : Nat) : RStep k (kReserve k th t)
+  | find (k : K) (th : Tid) : RStep k (kFind k th)
+  | unlink (k : K) (th : Tid) (ed : Nat) (key : Key) (h : (th, ed, key) ∈ k.uq) :
+      RStep k (kUnlink k th ed key)
+  | abandon (k : K) (th : Tid) : RStep k (kAbandon k th)
+  | allocDv (k : K) (n : Nat) : RStep k (kAllocDv k n)
+  | commitAIns (k k' : K) (th : Tid) (t n : Nat) (vs : List Int)
+      (h : kCommitA k th [.add (t, n) vs] = some k') : RStep k k'
+  | commitACreate (k k' : K) (th : Tid) (n : Nat) (h : kCommitA k th [.create n] = some k') :
+      RStep k k'
+  | commitB (k k' : K) (th : Tid) (h : kCommitB k th = some k') : RStep k k'
+
+theorem rstep_kstep : ∀ {k k' : K}, RStep k k' → KStep k k'
+  | _, _, .refl _ => .refl _
+  | _, _, .pin _ th => .pin _ th
+  | _, _, .unpin _ th e h => .unpin _ th e h
+  | _, _, .reserve _ th t => .reserve _ th t
+  | _, _, .find _ th => .find _ th
+  | _, _, .unlink _ th ed key h => .unlink _ th ed key h
+  | _, _, .abandon _ th => .abandon _ th
+  | _, _, .allocDv _ n => .allocDv _ n
+  | _, _, .commitAIns _ _ th _ _ _ h => .commitA _ _ th _ h
+  | _, _, .commitACreate _ _ th _ h => .commitA _ _ th _ h
+  | _, _, .commitB _ _ th h => .commitB _ _ th h
+
+/-- The serializability invariant: the tables are the sequential execution of the manifest, and
+the in-flight commit (between phase A and phase B) will make them the sequential execution of
+the manifest extended by its changeset. -/
+structure SerInv (k : K) : Prop where
+  cur : ∀ t, curRows k t = some (specOfLog k.log t)
+  infl : ∀ th f, k.infl = some (th, f) →
+    ∀ t, rowsAt? k.pool f.snap t = some (specAfter f.recs (specOfLog k.log) t)
+
+theorem serinv_init : SerInv ({} : K) :=
+  ⟨fun _ => rfl, fun _ _ hf => by cases hf⟩
+
+theorem commitA_fields {k k1 : K} {th : Tid} {ops : List Op} (hA : kCommitA k th ops = some k1) :
+    ∃ snap', applyOps (k.status k.epoch) ops = some snap' ∧ opsOk k th ops = true
+      ∧ k1.infl = some (th, { base := k.epoch, snap := snap', dels := delKeys ops, recs := ops })
+      ∧ k1.pool = poolAdds ops ++ k.pool ∧ k1.log = k.log ∧ k1.epoch = k.epoch
+      ∧ k1.status = k.status := by
+  simp only [kCommitA] at hA
+  split at hA
+  · cases hA
+  split at hA
+  · cases hA
+  rename_i _ hok
+  have hok : opsOk k th ops = true := by simpa using hok
+  split at hA
+  · cases hA
+  rename_i snap' hsnap
+  cases hA
+  exact ⟨snap', hsnap, hok, rfl, rfl, rfl, rfl, rfl⟩
+
+theorem serinv_rstep {k k' : K} (h : KInv k) (hd : DvInv k) (hs : SerInv k) (st : RStep k k') :
+    SerInv k' := by
+  cases st with
+  | refl => exact hs
+  | pin th => exact ⟨hs.cur, hs.infl⟩
+  | unpin th e hm => exact ⟨hs.cur, hs.infl⟩
+  | reserve th t => exact ⟨hs.cur, hs.infl⟩
+  | unlink th ed key hm => exact ⟨hs.cur, hs.infl⟩
+  | abandon th => exact ⟨hs.cur, hs.infl⟩
+  | allocDv n => exact ⟨hs.cur, hs.infl⟩
+  | find th =>
+      refine ⟨fun t => ?_, fun th' f hf t => ?_⟩
+      · rw [frame_other_steps h (.find k th) rfl t]; exact hs.cur t
+      · have hf' : k.infl = some (th', f) := hf
+        show rowsAt? (kFind k th).pool f.snap t = some (specAfter f.recs (specOfLog k.log) t)
+        rw [← hs.infl th' f hf' t]
+        apply rowsAt?_congr
+        intro key hk
+        simp only [kFind]
+        apply lookupPool_filter
+        intro pe _ hpk
+        simp only [Bool.not_eq_true', List.contains_eq_mem, decide_eq_false_iff_not, List.mem_map,
+          not_exists, not_and]
+        intro q hq heq
+        have hq' := mem_takenUpTo.mp hq
+        rw [heq, hpk] at hq'
+        exact (h.infl_ok th' f hf').2.2.1 q.1 key hq'.2 hk
+  | commitB _ th hc =>
+      simp only [kCommitB] at hc
+      split at hc
+      · cases hc
+      rename_i hh f hi
+      split at hc
+      case isFalse => cases hc
+      cases hc
+      refine ⟨fun t => ?_, fun _ _ hf => by cases hf⟩
+      simp only [curRows, if_true, specOfLog_snoc]
+      exact hs.infl hh f hi t
+  | commitACreate _ th n hc =>
+      have hfr := fun t => frame_other_steps h (.commitA k _ th _ hc) (by
+        simp only [kCommitA] at hc
+        split at hc
+        · cases hc
+        split at hc
+        · cases hc
+        split at hc
+        · cases hc
+        cases hc; rfl) t
+      simp only [kCommitA] at hc
+      split at hc
+      · cases hc
+      split at hc
+      · cases hc
+      split at hc
+      · cases hc
+      rename_i snap' hsnap
+      simp only [applyOps, applyOp, Option.some.injEq] at hsnap
+      subst hsnap
+      cases hc
+      refine ⟨fun t => ?_, fun th' f hf t => ?_⟩
+      · exact (hfr t).trans (hs.cur t)
+      · cases hf
+        exact hs.cur t
+  | commitAIns _ th t n vs hc =>
+      obtain ⟨snap', hsnap, hok, hinfl, hpool, hlog, hep, hstat⟩ := commitA_fields hc
+      have hcur : ∀ t', curRows k' t' = curRows k t' := fun t' =>
+        frame_other_steps h (.commitA k k' th _ hc) hep t'
+      refine ⟨fun t' => by rw [hlog]; exact (hcur t').trans (hs.cur t'), fun th' f hf t' => ?_⟩
+      rw [hinfl] at hf
+      cases hf
+      rw [hlog]
+      have hnodv := reserved_no_dv hd
+        (opsOk_add hok (by simp [addKeys] : (t, n) ∈ addKeys [.add (t, n) vs]))
+      -- phase B right after this phase A would publish exactly `snap'` over the same pool
+      cases hB : kCommitB k' th with
+      | none => simp [kCommitB, hinfl, hep] at hB
+      | some k2 =>
+          obtain ⟨e1, e2⟩ := insert_commit_exact h hnodv hc hB
+          obtain ⟨snap2, hsnap2, _, he2, hst2, hpool2⟩ := commit_result hc hB
+          rw [hsnap] at hsnap2
+          cases hsnap2
+          have hk2 : ∀ t'', curRows k2 t'' = rowsAt? k'.pool snap' t'' := by
+            intro t''
+            simp only [curRows, he2, hst2, hpool2, hpool]
+          rw [← hk2 t']
+          by_cases htt : t' = t
+          · subst htt
+            simp only [specAfter, if_true]
+            exact e1 _ (hs.cur t')
+          · simp only [specAfter, htt, if_false]
+            rw [e2 t' htt]
+            exact hs.cur t'
+
+/-- an action of the fragment: phase A only with an INSERT- or CREATE-shaped changeset, no panic -/
+def restrictedAct (s : Sys) : Act → Bool
+  | .commitA th => shapeOk (getTh s th).ops
+  | .panic _ => false
+  | _ => true
+
+macro "rstep_close" : tactic => `(tactic| (
+  first
+  | exact RStep.refl _
+  | exact RStep.pin _ _
+  | exact RStep.reserve _ _ _
+  | exact RStep.find _ _
+  | exact RStep.abandon _ _
+  | exact RStep.allocDv _ _
+  | (apply RStep.unpin; assumption)
+  | (apply RStep.commitB; assumption)))
+
+macro "rstep_auto" : tactic => `(tactic| (
+  repeat' (split at ‹_ = some _›)
+  all_goals (first | (cases ‹_ = some _›; done) | skip)
+  all_goals (cases ‹_ = some _›)
+  all_goals (try simp only [setTh_k, unlockAll_k, unlockActor_k, withK_k])
+  all_goals rstep_close))
+
+/-- every atomic segment of the fragment is one kernel operation of the fragment -/
+theorem astep_rstep {s s' : Sys} {a : Act} (hr : restrictedAct s a = true)
+    (h : astep s a = some s') : RStep s.k s'.k := by
+  cases a <;> simp only [astep] at h
+  case cmdBegin th c => simp only [stepCmdBegin] at h; rstep_auto
+  case bound th => simp only [stepBound] at h; rstep_auto
+  case pin th => simp only [stepPin] at h; rstep_auto
+  case unpin th e =>
+    simp only [stepUnpin] at h
+    split at h
+    · cases h
+    rename_i hc
+    have hm : (th, e) ∈ s.k.pins := by simpa using hc
+    rstep_auto
+  case txnPinned th m t => simp only [stepTxnPinned] at h; rstep_auto
+  case txnLocked th => simp only [stepTxnLocked] at h; rstep_auto
+  case commitBegin th => simp only [stepCommitBegin] at h; rstep_auto
+  case commitA th =>
+    simp only [restrictedAct] at hr
+    simp only [stepCommitA] at h
+    split at h
+    · cases h
+    split at h
+    · rename_i k' hk
+      cases h
+      simp only [withK_k]
+      cases hops : (getTh s th).ops with
+      | nil => simp [hops, shapeOk] at hr
+      | cons o r =>
+        cases r with
+        | cons o2 r2 => cases o <;> simp [hops, shapeOk] at hr
+        | nil =>
+          rw [hops] at hk
+          cases o with
+          | add key vs => exact RStep.commitAIns _ _ th key.1 key.2 vs hk
+          | create n => exact RStep.commitACreate _ _ th n hk
+          | drop _ => simp [hops, shapeOk] at hr
+          | del _ => simp [hops, shapeOk] at hr
+          | addDv _ _ _ => simp [hops, shapeOk] at hr
+          | delDv _ _ => simp [hops, shapeOk] at hr
+    · cases h
+  case append th => simp only [stepAppend] at h; rstep_auto
+  case committed th => simp only [stepCommitted] at h; rstep_auto
+  case createApplied th => simp only [stepCreateApplied] at h; rstep_auto
+  case dropApplied th => simp only [stepDropApplied] at h; rstep_auto
+  case cpPinned th => simp only [stepCpPinned] at h; rstep_auto
+  case cpTable th t => simp only [stepCpTable] at h; rstep_auto
+  case cpLocked th t => simp only [stepCpLocked] at h; rstep_auto
+  case cpEnd th => simp only [stepCpEnd] at h; rstep_auto
+  case vacFind th => simp only [stepVacFind] at h; rstep_auto
+  case vacUnlinked th key =>
+    simp only [stepVacUnlinked] at h
+    split at h
+    · rename_i q hq
+      have hq1 := List.find?_some hq
+      have hq2 := List.mem_of_find?_eq_some hq
+      simp only [Bool.and_eq_true, beq_iff_eq] at hq1
+      have hm : (th, q.2.1, key) ∈ s.k.uq := by
+        obtain ⟨a, b⟩ := hq1
+        have : q = (th, q.2.1, key) := by
+          rcases q with ⟨q1, q2, q3⟩
+          simp only at a b ⊢
+          rw [a, b]
+        rw [← this]; exact hq2
+      split at h
+      · cases h
+        simp only [withK_k]
+        exact RStep.unlink _ _ _ _ hm
+      · cases h
+    · cases h
+  case rdOpen th => simp only [stepRdOpen] at h; rstep_auto
+  case rdBatch th n => simp only [stepRdBatch] at h; rstep_auto
+  case cmdDone th => simp only [stepCmdDone] at h; rstep_auto
+  case panic th => simp [restrictedAct] at hr
+
+/-- every action of the schedule is an action of the fragment (in the state where it runs) -/
+def restrictedRun : Sys → List Act → Bool
+  | _, [] => true
+  | s, a :: r => restrictedAct s a && (match astep s a with
+      | some s' => restrictedRun s' r
+      | none => true)
+
+/-- **Whole-run serializability (INSERT / SELECT / CREATE).**  Along every schedule of the
+fragment — any number of sessions, threads and steps — the serializability invariant holds. -/
+theorem serializable_run : ∀ (acts : List Act) {s s' : Sys}, Inv s → DvInv s.k → SerInv s.k →
+    restrictedRun s acts = true → run s acts = some s' → SerInv s'.k
+  | [], s, s', _, _, hs, _, hr => by simp only [run] at hr; cases hr; exact hs
+  | a :: r, s, s', h, hd, hs, hres, hr => by
+      simp only [run] at hr
+      simp only [restrictedRun, Bool.and_eq_true] at hres
+      split at hr
+      · rename_i s1 h1
+        have hres2 := hres.2
+        simp only [h1] at hres2
+        have st := astep_rstep hres.1 h1
+        exact serializable_run r (inv_step h h1) (dvinv_kstep h hd (rstep_kstep st))
+          (serinv_rstep h hd hs st) hres2 hr
+      · cases hr
+
+/-- In every state reachable by a schedule of the fragment, every table holds exactly the
+sequential execution of the manifest (= the acknowledged INSERTs in publishing order). -/
+theorem serializable_restricted {acts : List Act} {s : Sys} (hres : restrictedRun init acts = true)
+    (hr : run init acts = some s) : ∀ t, curRows s.k t = some (specOfLog s.k.log t) :=
+  (serializable_run acts inv_init dvinv_init serinv_init hres hr).cur
+
+/-- ... and a SELECT that pinned in such a state returns, whenever it finishes and whatever
+commits in between, the sequential execution of the manifest as it was when it pinned. -/
+theorem select_serial {acts1 acts2 : List Act} {s1 s2 : Sys} {p : Tid × Nat}
+    (hres : restrictedRun init acts1 = true) (hr1 : run init acts1 = some s1)
+    (hp : p.2 = s1.k.epoch) (hr2 : run s1 acts2 = some s2) (hheld : HeldAlong p s1 acts2) (t : Nat) :
+    rowsAt? s2.k.pool (s2.k.status p.2) t = some (specOfLog s1.k.log t) := by
+  rw [reader_sees_start_snapshot acts2 (inv_reachable_init acts1 hr1) hr2 hheld t, hp]
+  exact serializable_restricted hres hr1 t
+
+-- non-vacuity: three inserts' worth of schedule with an overlapping reader, compaction excluded
+example : restrictedRun init (wSetup ++ wReadPin ++ wIns 4 4 [9] ++ wReadEnd 4) = true := by decide
+
+example : curRows (stateOf (wSetup ++ wReadPin ++ wIns 4 4 [9] ++ wReadEnd 4)).k 0 = some [9, 3, 1, 2] := by
+  decide
+
+-- the compaction witness of C09 is outside the fragment
+example : restrictedRun init wPinThenCompact = false := by decide
+
 end SC
 end RlModel
